@@ -101,6 +101,9 @@ func mergeStats(r *report, st genStats) {
 // ---------------------------------------------------------------- C02
 func runC02(args []string) int {
 	o := parseRunOpts("c02", args)
+	if o.replay != "" {
+		return replayStream("C02", o, false, true, false)
+	}
 	r := newReport("C02", o)
 	r.Rule = "well-formed record streams generated from the profile table (all messages, listed/unlisted fields, compatible definition types narrower or equal, arrays, strings, both byte orders, shuffled field orders, unknown/developer content interleaved) x random chunkings; " +
 		"non-trivial = in the domain of the reference semantics with at least one data record of a known message; distinct by stream bytes. histogram cell_* = (kind, array, profile base type, definition base type, elements, byte order) hit counts"
@@ -251,6 +254,9 @@ func genTimeStream(rg *rng, st genStats, withQuirks bool) *stream {
 
 func runC12(args []string) int {
 	o := parseRunOpts("c12", args)
+	if o.replay != "" {
+		return replayStream("C12", o, true, true, false)
+	}
 	r := newReport("C12", o)
 	r.Rule = "sequences mixing explicit timestamps, compressed-timestamp records (all 32 offsets, rollovers, runs up to 200) and local timestamps, both byte orders; a main stream inside the theorem's side conditions and a second stream with timestamp 0 / power-on-relative timestamps / local timestamps without reference (known findings); " +
 		"non-trivial = at least one compressed or local timestamp decoded; distinct by stream bytes"
@@ -303,6 +309,9 @@ func runC12(args []string) int {
 // ---------------------------------------------------------------- C13
 func runC13(args []string) int {
 	o := parseRunOpts("c13", args)
+	if o.replay != "" {
+		return replayStream("C13", o, false, true, false)
+	}
 	r := newReport("C13", o)
 	r.Rule = "interleavings of definition and data records over all 16 local types (0-3 also through compressed headers) with redefinitions switching message, field list, sizes and byte order; data records of undefined local types; " +
 		"plus the metamorphic test: inserting a redefinition of one local type (and dropping its later data records) must not change how records of the other local types decode; non-trivial = at least one redefinition followed by data; distinct by stream bytes"
@@ -447,6 +456,9 @@ func hasAccumulating(s *stream) bool {
 // ---------------------------------------------------------------- C16
 func runC16(args []string) int {
 	o := parseRunOpts("c16", args)
+	if o.replay != "" {
+		return replayStream("C16", o, false, false, true)
+	}
 	r := newReport("C16", o)
 	r.Rule = "streams mixing known and unknown messages and listed and unlisted fields, including streams that fail part-way (truncated, corrupted checksum, ill-formed record), each decoded under all 8 option combinations; " +
 		"non-trivial = at least one unknown message or unlisted field counted; distinct by stream bytes"
